@@ -1,0 +1,37 @@
+//go:build verif
+
+// Contracts for govc (see /verif/DESIGN.md). Comment-only; compiled only with -tags verif.
+
+package datadog
+
+//@ property C11
+
+// The chunk is a JSON array "[" r1 "," r2 ... "]" written through the (compressing) writer. numBytes counts one byte
+// more than has actually been written once the first record is in: the delimiter of the NEXT record is pre-counted, which
+// is what CanAppendData relies on.
+//@ pure func cwriter(c *intermediateChunk) int := c.compressor != nil ? ref(c.compressor) : ref(c.writeBuffer)
+//@ pure func actual(c *intermediateChunk) int := wbytes[cwriter(c)]
+//@ pure func canfit(c *intermediateChunk, n int) bool :=
+//@     (c.maxRecords > 0 ==> c.numRecords < c.maxRecords) && (c.maxBytes > 0 ==> c.numBytes + n + 1 <= c.maxBytes)
+// "no chunk exceeds the size and record limits unless a single record alone does": the finished array is actual + 1 bytes
+//@ pure func limitsok(c *intermediateChunk) bool :=
+//@     c.numRecords <= 1 || ((c.maxBytes > 0 ==> actual(c) + 1 <= c.maxBytes) && (c.maxRecords > 0 ==> c.numRecords <= c.maxRecords))
+//@ pure func validchunk(c *intermediateChunk) bool :=
+//@     c != nil && c.writeBuffer != nil && c.numRecords >= 0 && limitsok(c) && c.numBytes == actual(c) + (c.numRecords >= 1 ? 1 : 0)
+
+//@ func (chunk *intermediateChunk) CanAppendData(dataLength int) bool
+//@   requires chunk != nil
+//@   ensures  result <==> canfit(chunk, dataLength)
+
+//@ func (chunk *intermediateChunk) Write(data base.LogStream) error
+//@   requires validchunk(chunk) && (chunk.numRecords == 0 || canfit(chunk, len(data)))
+//@   modifies chunk.numRecords, chunk.numBytes, wbytes[cwriter(chunk)]
+//@   ensures  result == nil ==> validchunk(chunk) && chunk.numRecords == old(chunk.numRecords) + 1
+//@   ensures[comma-before-every-record-but-the-first] result == nil ==> actual(chunk) == old(actual(chunk)) + len(data) + (old(chunk.numRecords) != 0 ? 1 : 0)
+//@   ensures  result != nil ==> chunk.numRecords == old(chunk.numRecords)
+//@   canary ensures result == nil ==> actual(chunk) == old(actual(chunk)) + len(data)
+
+//@ func (chunk *intermediateChunk) FinalizeChunk() (*base.LogChunk, error)
+//@   requires validchunk(chunk)
+//@   modifies chunk.numBytes, wbytes[cwriter(chunk)], wbytes[ref(chunk.writeBuffer)]
+//@   ensures  result.1 == nil ==> result.0 != nil && result.0.ID === chunk.id && !result.0.Saved
